@@ -740,8 +740,11 @@ class Mailbox:
         # (will only be one for conflicting commands)
         #
         self.executing_tasks = []
+        imap_cmd: IMAPClientCommand | None = None
         while True:
             try:
+                imap_cmd = None
+
                 # Block until we have an IMAP Command that wants to run on this
                 # mailbox.
                 #
@@ -854,6 +857,14 @@ class Mailbox:
                 )
                 return
             except asyncio.CancelledError:
+                # If we were cancelled (the mailbox is being deleted or shut
+                # down) while holding a command that we took off the queue but
+                # have not let run yet, let it go: it is no longer in the
+                # queue, so nobody else will, and it will see that the mailbox
+                # is gone.
+                #
+                if imap_cmd is not None and not imap_cmd.ready.is_set():
+                    imap_cmd.ready.set()
                 return
             except Exception as e:
                 # We ignore all other exceptions because otherwise the
